@@ -225,6 +225,11 @@ def gen_template(rng, depth, level=0, holes=True):
         return tm("expr", ch=[tm("sym", "unquote-splice"), tm("sym", rng.choice(["xs", "ys"]))])
     if r < 0.7:
         return tm("expr", ch=[tm("sym", "quasiquote"), gen_template(rng, depth - 1, level + 1, holes)])
+    if holes and level > 0 and r < 0.8:
+        # inside a nested quasiquote an unquote / unquote-splice only lowers the level: its argument is a
+        # template again (whose own holes may reach level 0)
+        return tm("expr", ch=[tm("sym", rng.choice(["unquote", "unquote-splice", "unquote-splice"])),
+                              gen_template(rng, depth - 1, level - 1, holes)])
     k = rng.choice(["expr", "list", "tuple", "set", "dict", "expr", "list"])
     ch = [gen_template(rng, depth - 1, level, holes) for _ in range(rng.randint(0, 3))]
     if k == "expr" and ch and ch[0]["t"] == "sym" and ch[0]["v"] in ("unquote", "unquote-splice", "quasiquote"):
@@ -276,6 +281,26 @@ def quasi_cases(rng, q):
     # nested quasiquote levels
     for _ in range(1500 if q else 30000):
         temps.append(gen_template(rng, rng.choice([2, 3, 4])))
+    # every chain of quasiquote / unquote / unquote-splice (<= 5 links) around a hole, in a list: the level
+    # arithmetic at every depth (the template itself sits inside one quasiquote, level 1)
+    for n in range(1, 6):
+        for chain in itertools.product("QUS", repeat=n):
+            level, ok = 1, True
+            for j, c in enumerate(chain):
+                if c == "Q":
+                    level += 1
+                else:
+                    if level == 1 and j != len(chain) - 1:
+                        ok = False      # this unquote evaluates its argument: it has to be the hole itself
+                        break
+                    level -= 1
+            if not ok:
+                continue
+            leaf = tm("sym", "xs" if chain[-1] == "S" else "x")
+            t = leaf
+            for c in reversed(chain):
+                t = tm("expr", ch=[tm("sym", {"Q": "quasiquote", "U": "unquote", "S": "unquote-splice"}[c]), t])
+            temps.append(tm("list", ch=[tm("sym", "a"), t, tm("int", "1")]))
     cases = []
     for t in temps:
         for _ in range(2 if q else 4):
@@ -792,10 +817,17 @@ def gen_shape(rng, depth, hashable=False, stack=()):
         return sh("atom")
     if not hashable and stack and r < 0.38:
         return sh("self", of=rng.choice(stack))
-    kinds = ["tuple", "frozenset", "fraction", "range1", "range2", "range3"] if hashable else \
-        ["list", "tuple", "dict", "set", "frozenset", "bytearray", "fraction", "range1", "range2", "range3", "slice1",
-         "slice2", "slice3", "deque", "ordereddict", "counter", "defaultdict", "chainmap"]
+    kinds = ["tuple", "frozenset", "fraction", "range", "range"] if hashable else \
+        ["list", "tuple", "dict", "set", "frozenset", "bytearray", "fraction", "range", "range", "slice", "slice", "slice",
+         "deque", "ordereddict", "counter", "defaultdict", "chainmap"]
     k = rng.choice(kinds)
+    if hashable and k in ("tuple", "frozenset"):
+        # keys / set elements must be pairwise different: never empty (their atoms are unique)
+        return sh(k, [gen_shape(rng, min(depth - 1, 1), True, ()) for _ in range(rng.randint(1, 3))])
+    if k == "range":
+        return sh(k, of=[rng.choice(["0", "n"]), rng.choice(["1", "n"])])
+    if k == "slice":
+        return sh(k, of=[rng.choice(["None", "0", "n"]), rng.choice(["None", "1", "n"])])
     n = rng.randint(0, 3)
     if k in ("list", "deque"):
         return sh(k, [gen_shape(rng, depth - 1, False, stack + (k,)) for _ in range(n)])
@@ -892,12 +924,17 @@ def fill(shape, rng, hashable=False, encl=()):
     if k == "fraction":
         _KEYSEQ[0] += 1
         return Fraction(2 * _KEYSEQ[0] + 1, 2)
-    if k.startswith("range"):
+    if k == "range":
         _KEYSEQ[0] += 1
         i = _KEYSEQ[0]            # non-empty, pairwise different ranges (empty ranges are all equal)
-        return {"1": range(i + 1), "2": range(rng.choice([1, 2, -2]), i + 3), "3": range(-i, i + 2, rng.choice([2, 3]))}[k[-1]]
-    a, b, c = rng.choice([1, "x", 2.5]), rng.choice([None, 4, "y"]), rng.choice([2, "z", 0.5])
-    return {"1": slice(b), "2": slice(a, b), "3": slice(rng.choice([None, 1]), b, c)}[k[-1]]
+        s_, t_ = shape["of"]
+        start = 0 if s_ == "0" else rng.choice([1, 2, -2])
+        step = 1 if t_ == "1" else rng.choice([2, 3])
+        return range(start, start + (i + 3) * step, step)
+    s_, t_ = shape["of"]
+    start = {"None": None, "0": 0}.get(s_, rng.choice([1, "x", 2.5]))
+    step = {"None": None, "1": 1}.get(t_, rng.choice([2, "z", 0.5]))
+    return slice(start, rng.choice([None, 4, "y"]), step)
 
 
 def val_equal(a, b):
@@ -940,6 +977,21 @@ def skeleton(m):
     if isinstance(m, M.Expression):
         if m and isinstance(m[0], M.Symbol) and str(m[0]) in ("frozenset", "bytearray", "Fraction", "range", "slice",
                                                                 "deque", "OrderedDict", "Counter", "defaultdict", "ChainMap"):
+            if str(m[0]) in ("range", "slice"):
+                def cls(x, pos):
+                    # start: 0 / None / anything else; step: 1 / None / anything else; stop: never classified
+                    if x == M.Symbol("None"):
+                        c = "None" if pos in ("start", "step") else "n"
+                    elif pos == "start" and type(x) is M.Integer and int(x) == 0:
+                        c = "0"
+                    elif pos == "step" and type(x) is M.Integer and int(x) == 1:
+                        c = "1"
+                    else:
+                        c = "n"
+                    return {"f": "atom", "h": c, "ch": []}
+                args = list(m[1:])
+                pos = {1: ["stop"], 2: ["start", "stop"], 3: ["start", "stop", "step"]}.get(len(args), ["stop"] * len(args))
+                return {"f": "expr", "h": str(m[0]), "ch": [cls(x, p_) for x, p_ in zip(args, pos)]}
             return {"f": "expr", "h": str(m[0]), "ch": [skeleton(x) for x in m[1:]]}
         return {"f": "atom", "h": "", "ch": []}      # e.g. a quoted model
     for cls, name in ((M.List, "list"), (M.Tuple, "tuple"), (M.Dict, "dict"), (M.Set, "set")):
